@@ -13,7 +13,7 @@ RULE = ("Cases as in C06 plus: target_param subsets in a generated order, target
         "{None, lsoda, vode, dopri5}, entry point in {sensitivity, gradient, sensitivity(full_output=True), sensitivityIV, jac} "
         "(jac(theta) is compared as a set of columns with the reference sensitivities of the observed states; its layout is "
         "recorded, not judged). In half of the cases 1-2 further calls (sensitivity, gradient, sensitivityIV, cost) follow on the SAME "
-        "loss object at other parameters / initial values; each must be right at its own point. Models as in C06 incl. catalogue entries and container/dtype forms. Oracle: reference "
+        "loss object at other parameters / initial values (in half of those one block is held fixed: same parameters with other initial values, or the reverse); each must be right at its own point. Models as in C06 incl. catalogue entries and container/dtype forms. Oracle: reference "
         "gradient g_k = sum_{i,s} dloss/dyhat_is * dx_s(t_i)/d(free variable k) with dx/dtheta, dx/dx0 from own variational equations on the "
         "abstract model (jets) and dloss/dyhat from mpmath derivatives of the reference log-densities (weights enter for Square and Normal "
         "only), ordered as the free variables were supplied: parameters in target_param order, then initial values in target_state order; "
@@ -45,10 +45,15 @@ def strategy(tier):
             c["weights"] = None
         # 0-2 further evaluations on the same loss object at other points (parameters scaled; for IV entries other initial values)
         fus = []
-        for _ in range(draw(st.sampled_from([0, 0, 1, 2]))):
-            fus.append({"entry": draw(st.sampled_from(["sensitivity", "gradient", "sensitivityIV", "sensitivityIV", "cost"])),
+        iv = c["entry"] == "sensitivityIV"
+        for _ in range(draw(st.sampled_from([0, 1, 2, 2] if iv else [0, 0, 1, 2]))):
+            fus.append({"entry": draw(st.sampled_from(["sensitivityIV", "sensitivityIV", "sensitivityIV", "gradient", "cost"] if iv else
+                                                      ["sensitivity", "gradient", "sensitivityIV", "sensitivityIV", "cost"])),
                         "theta_factors": [draw(st.sampled_from([0.7, 0.9, 1.0, 1.15, 1.4])) for _ in range(len(c["model"]["params"]))],
-                        "x0_factors": [draw(st.sampled_from([0.8, 0.9, 1.1, 1.3])) for _ in range(len(ir.state_names(c["model"])))]})
+                        "x0_factors": [draw(st.sampled_from([0.8, 0.9, 1.1, 1.3])) for _ in range(len(ir.state_names(c["model"])))],
+                        # a profile / coordinate search holds one block fixed: same parameters with other initial values, or
+                        # the other way round
+                        "hold": draw(st.sampled_from(["none", "theta", "theta", "x0"] if iv else ["none", "none", "theta", "x0"]))})
         c["followups"] = fus
         return c
     return case()
@@ -198,9 +203,12 @@ def oracle(case, rec):
         entry2 = fu["entry"]
         if entry2 == "sensitivityIV" and (case["entry"] != "sensitivityIV" or _ambiguous(case, m, names, free)):
             entry2 = "sensitivity"
-        free2 = [S.sig(v * f, 5) for v, f in zip(free, fu["theta_factors"])]
+        hold = fu.get("hold", "none")
+        free2 = list(free) if hold == "theta" else [S.sig(v * f, 5) for v, f in zip(free, fu["theta_factors"])]
         x02 = list(x0)                         # non-IV calls use whatever initial state the object currently holds
-        if entry2 == "sensitivityIV":
+        if hold != "none":
+            rec.label("sequence:holds-" + hold)
+        if entry2 == "sensitivityIV" and hold != "x0":
             for s, f in zip((case["target_state"] or names), fu["x0_factors"]):
                 x02[names.index(s)] = S.sig(x0[names.index(s)] * f, 5)
         key2 = "C07/sequence/%s-after-%s/%s" % (entry2, case["entry"], case["loss"])
